@@ -96,13 +96,20 @@ def nameStr (n : Bytes) : String := String.ofList (n.map (fun c => Char.ofNat c.
 /-- the pseudo-label entry for a selector name (names are ASCII identifiers) -/
 def pseudoOf (name : Bytes) : Option (String × Bool) := Gen.ProfSelect.pseudoLabels.lookup (nameStr name)
 
+/-- the value `getMatchers` hands on: for the operators of `Gen.ProfSelect.anchoredOps` (`=~`, `!~` after
+    `fix: Pyroscope selector regular expressions …`) the pattern wrapped as `^(?:` … `)$` -/
+def selVal (s : Selector) : Bytes :=
+  if Gen.ProfSelect.anchoredOps.contains s.op.str then
+    ascii Gen.ProfSelect.valuePrefix ++ s.val ++ ascii Gen.ProfSelect.valueSuffix
+  else s.val
+
 /-- one selector: `inl` = global clause, `inr` = key/value clause -/
 def clauseOf (s : Selector) : Option (PCond ⊕ PCond) :=
   match pseudoOf s.name with
   | some (field, inArr) =>
-    (matcherClause field s.op s.val).map (fun c => .inl (if inArr then .arrayExists c else c))
+    (matcherClause field s.op (selVal s)).map (fun c => .inl (if inArr then .arrayExists c else c))
   | none =>
-    (matcherClause "val" s.op s.val).map (fun c => .inr (.and2 (.cmp (fnOf "Eq") "key" s.name) c))
+    (matcherClause "val" s.op (selVal s)).map (fun c => .inr (.and2 (.cmp (fnOf "Eq") "key" s.name) c))
 
 structure PQuery where
   table : String
@@ -170,10 +177,10 @@ def selHolds (re : Bytes → Bytes → Bool) (s : Selector) (r : PRow) : Bool :=
   match pseudoOf s.name with
   | some (field, inArr) =>
     (match fieldSem field with
-     | some g => if inArr then r.stu.any (fun x => opHoldsP re s.op (g r x) s.val)
-                 else opHoldsP re s.op (g r ([], [])) s.val
+     | some g => if inArr then r.stu.any (fun x => opHoldsP re s.op (g r x) (selVal s))
+                 else opHoldsP re s.op (g r ([], [])) (selVal s)
      | none => false)
-  | none => r.key == s.name && opHoldsP re s.op r.val s.val
+  | none => r.key == s.name && opHoldsP re s.op r.val (selVal s)
 
 def isGlobal (s : Selector) : Bool := (pseudoOf s.name).isSome
 
